@@ -10,6 +10,7 @@
  * succeed and agree with the independent reader.
  */
 #include <complex.h>
+#include <ctype.h>
 #include <math.h>
 #include <stdio.h>
 #include <stdlib.h>
@@ -79,6 +80,7 @@ typedef struct cfg {
     int ports;
     int z0set;
     int nfreq;
+    int dc;		/* the sweep starts at 0 Hz */
     int fprec, dprec;	/* 0: leave the default (7 / 6) */
     double mag;
     /* derived */
@@ -167,6 +169,8 @@ static void fill_cfg(cfg_t *c)
 	double complex s[MAXP * MAXP];
 
 	c->freq[f] = freq_list[c->nfreq == 1 ? 0 : 1][f];
+	if (c->dc && f == 0)
+	    c->freq[f] = 0.0;	/* a DC point: legal in every file family */
 	for (int p = 0; p < n; ++p) {
 	    switch (c->z0set) {
 	    case 0: c->z0[f][p] = 50.0; break;
@@ -573,10 +577,24 @@ static void run_combo(const cfg_t *c, const char *fmt, vf_result *r,
     FILE *fp;
     double R;
 
-    vf_desc(r, "type=%s sel=%s ports=%d z0=%s nfreq=%d format=%s fprec=%d "
+    vf_desc(r, "type=%s sel=%s ports=%d z0=%s nfreq=%d%s format=%s fprec=%d "
 	    "dprec=%d mag=%g", type_name[c->type], sel_name[c->sel], c->ports,
-	    z0_name[c->z0set], c->nfreq, fmt_str(fmt), c->fprec, c->dprec,
-	    c->mag);
+	    z0_name[c->z0set], c->nfreq, c->dc ? " from 0 Hz" : "",
+	    fmt_str(fmt), c->fprec, c->dprec, c->mag);
+    /* an R-L or R-C equivalent divides a reactance by the frequency: at
+       0 Hz it is 0/0, nothing can be asked of it */
+    if (c->dc && fmt != NULL) {
+	char up[64];
+	size_t i;
+	for (i = 0; fmt[i] != '\0' && i + 1 < sizeof(up); ++i)
+	    up[i] = (char)toupper((unsigned char)fmt[i]);
+	up[i] = '\0';
+	if (strstr(up, "PRC") || strstr(up, "PRL") || strstr(up, "SRC") ||
+		strstr(up, "SRL")) {
+	    ++*n_untried;
+	    return;
+	}
+    }
     vf_errlog_reset(&logA);
     vf_errlog_reset(&logB);
     vf_errlog_reset(&logC);
@@ -1057,7 +1075,7 @@ static int p3_mags(int tier) { return tier ? 5 : 3; }
 
 static long n_p1(int tier)
 {
-    return 10L * NSEL * p1_ports(tier) * 4 * 2 * p1_pm(tier);
+    return 10L * NSEL * p1_ports(tier) * 4 * 3 * p1_pm(tier);
 }
 static long n_p2(int tier)
 {
@@ -1091,7 +1109,11 @@ static void run(int tier, long idx, vf_result *r)
 	c.sel = vf_digit(&idx, NSEL);
 	c.ports = vf_digit(&idx, p1_ports(tier)) + 1;
 	c.z0set = vf_digit(&idx, 4);
-	c.nfreq = vf_digit(&idx, 2) ? 3 : 1;
+	{
+	    int fk = vf_digit(&idx, 3);	/* 1 point, 3 points, 3 from 0 Hz */
+	    c.nfreq = fk ? 3 : 1;
+	    c.dc = fk == 2;
+	}
 	pm = vf_digit(&idx, p1_pm(tier));
 	if (pm)
 	    c.fprec = c.dprec = VNADATA_MAX_PRECISION;
